@@ -114,34 +114,48 @@ Definition cal_spec (size pn n : Z) : Z * Z * Z * error :=
   let N := page_count n size in
   if pn <=? N then (size * (pn - 1), Z.min (size * pn) n, N, None) else (0, 0, N, None).
 
+(* The proofs about the regenerated definitions do not depend on the exact shape
+   of the translated term: every `if` is split, every `wrap` is shown not to
+   wrap from the path conditions, the leaves are closed by lia/nia. A rewrite
+   of the Go code that keeps its meaning keeps these proofs. *)
+Ltac arith := rewrite ?pow64 in *; first [lia | nia].
+Ltac unwrap1 :=
+  match goal with
+  | H : context [wrap 64 ?x] |- _ =>
+      lazymatch x with context [wrap _ _] => fail
+      | _ => rewrite (wrap_small 64 x) in H by (rewrite pow64; arith) end
+  | |- context [wrap 64 ?x] =>
+      lazymatch x with context [wrap _ _] => fail
+      | _ => rewrite (wrap_small 64 x) by (rewrite pow64; arith) end
+  end.
+Ltac split_if :=
+  match goal with
+  | |- context [if ?c then _ else _] =>
+      lazymatch c with context [if _ then _ else _] => fail | _ => destruct c eqn:? end
+  end.
+
+Lemma quad_eq (a b c a' b' c' : Z) (d d' : error) :
+  a = a' -> b = b' -> c = c' -> d = d' ->
+  @Val (Z * Z * Z * error) (a, b, c, d) = Val (a', b', c', d').
+Proof. intros; subst; reflexivity. Qed.
+
 Lemma Cal_spec size pn n :
   1 <= size < 2 ^ 63 -> 1 <= pn < 2 ^ 64 -> 0 <= n < 2 ^ 63 ->
   PageIndex_Cal size pn n = Val (cal_spec size pn n).
 Proof.
-  intros Hs Hp Hn. unfold PageIndex_Cal, cal_spec.
-  destruct (page_count_bounds n size ltac:(lia) ltac:(lia)) as (HN0 & HNlo & HNhi & HNn).
-  rewrite (page_count_alt n size) in * by lia.
-  replace (size =? 0) with false by lia. replace (pn =? 0) with false by lia.
-  rewrite udiv_nz, umod_nz by lia. rewrite !bind_val.
+  intros Hs Hp Hn. unfold cal_spec. rewrite (page_count_alt n size) by lia.
   rewrite pow63, pow64 in *.
+  pose proof (Z.div_mod n size ltac:(lia)) as E.
+  pose proof (Z.mod_pos_bound n size ltac:(lia)) as B.
   assert (Hq : 0 <= n / size) by (apply Z.div_pos; lia).
-  set (N := n / size + (if n mod size =? 0 then 0 else 1)) in *.
-  assert (Etot : (if negb (n mod size =? 0) then Val (wrap 64 (n / size + 1)) else Val (n / size)) = Val N).
-  { subst N. destruct (n mod size =? 0) eqn:E0; cbn [negb].
-    - f_equal. lia.
-    - rewrite wrap_small by (rewrite pow64; lia). reflexivity. }
-  rewrite Etot, bind_val.
-  destruct (pn >? N) eqn:Egt.
-  - replace (pn <=? N) with false by lia. reflexivity.
-  - replace (pn <=? N) with true by lia.
-    assert (Hst : 0 <= size * (pn - 1) < n) by (destruct (n =? 0) eqn:En; nia).
-    rewrite (wrap_small 64 (pn - 1)) by (rewrite pow64; lia).
-    rewrite (wrap_small 64 (size * (pn - 1))) by (rewrite pow64; lia).
-    replace (size * (pn - 1) >=? n) with false by lia.
-    rewrite (wrap_small 64 (size * (pn - 1) + size)) by (rewrite pow64; lia).
-    destruct (size * (pn - 1) + size >? n) eqn:Ee; rewrite bind_val.
-    + replace (Z.min (size * pn) n) with n by lia. reflexivity.
-    + replace (Z.min (size * pn) n) with (size * (pn - 1) + size) by lia. reflexivity.
+  unfold PageIndex_Cal, udiv, umod.
+  generalize dependent (n / size). generalize dependent (n mod size). intros r Hr q Hq E.
+  cbv zeta.
+  repeat first [ progress cbn [bind negb] | split_if ];
+  repeat unwrap1;
+  try discriminate.
+  all: try (exfalso; arith).
+  all: apply quad_eq; first [reflexivity | arith].
 Qed.
 
 (* ---------- Pagination *)
@@ -150,8 +164,7 @@ Lemma NewPageIndex_ok size pn : 1 <= size <= 100 -> 1 <= pn ->
   NewPageIndex size pn = Val (Some (size, pn), None).
 Proof.
   intros Hs Hp. unfold NewPageIndex.
-  replace (size =? 0) with false by lia. replace (pn =? 0) with false by lia.
-  replace (size >? 100) with false by lia. reflexivity.
+  repeat split_if; first [reflexivity | exfalso; lia].
 Qed.
 
 Lemma page_spec {A} (l : list A) size pn :
@@ -221,9 +234,7 @@ Lemma page_rejects {A} (l : list A) size pn : 0 <= size -> 0 <= pn ->
   exists e, page l size pn = Val ([], 0, Some e).
 Proof.
   intros Hs Hp Hn. unfold page, cal_via_new, NewPageIndex.
-  destruct (size =? 0) eqn:E0; [eexists; reflexivity|].
-  destruct (pn =? 0) eqn:E1; [eexists; reflexivity|].
-  destruct (size >? 100) eqn:E2; [eexists; reflexivity|]. lia.
+  repeat split_if; first [eexists; reflexivity | exfalso; lia].
 Qed.
 
 Lemma page_no_panic {A} (l : list A) size pn :
